@@ -2,7 +2,7 @@
 # seedtest.sh <seed-id> <property> <src-dir-with-patch+demo> <demo-pkg-dir-relative-to-repo> [tier]
 # Confirms a seeded mutation in a scratch worktree (build, existing tests pass, demo fails with /
 # passes without), stores it under /verif/seeded/<seed-id>/, then runs the property's check
-# against /repo with the patch applied and reverts.
+# against a scratch worktree with the patch applied (tools/seedrun.sh).
 set -u
 export GOFLAGS=-mod=mod GOPROXY=off GOSUMDB=off GOTOOLCHAIN=local
 ID=$1; PROP=$2; SRC=$3; DEMODIR=$4; TIER=${5:-quick}
@@ -25,16 +25,9 @@ git checkout -q -- .
 if go test -vet=off -count=1 ./$DEMODIR >/tmp/sv_$ID.demo2 2>&1; then R_DEMO_CLEAN=pass; else R_DEMO_CLEAN=fail; fi
 cd /verif
 git -C /repo worktree remove --force $SV
-# run the check against /repo with the mutation (always reverted, also when interrupted)
-trap 'git -C /repo checkout -- .' EXIT INT TERM
-git -C /repo apply $OUT/patch.diff
-timeout 900 ./bin/vcheck run $PROP --tier $TIER > /tmp/sv_$ID.check 2>&1
-RC=$?
-git -C /repo checkout -- .
-DET=missed; [ $RC -eq 1 ] && grep -q "^VIOLATION property=$PROP" /tmp/sv_$ID.check && DET=detected
-[ $RC -eq 2 ] && DET="check-error"
-echo "$ID prop=$PROP apply=$R_APPLY build=$R_BUILD tests=$R_TESTS demo_with_mutation=$R_DEMO_MUT demo_clean=$R_DEMO_CLEAN check($TIER)=$DET rc=$RC"
-grep -h "viol=\[[^]]" /tmp/sv_$ID.check | cut -c1-260 | head -3
+# the check itself runs against a scratch worktree carrying the mutation (tools/seedrun.sh:
+# VERIF_REPO / VERIF_OUT), so /repo and the committed evidence are never touched
+DET=pending
 python3 - "$ID" "$PROP" "$DEMODIR" "$R_APPLY" "$R_BUILD" "$R_TESTS" "$R_DEMO_MUT" "$R_DEMO_CLEAN" "$TIER" "$DET" <<'PY'
 import json,sys,os
 id,prop,demodir,a,b,t,dm,dc,tier,det=sys.argv[1:]
@@ -42,7 +35,9 @@ p='/verif/seeded/%s/meta.json'%id
 m=json.load(open(p)) if os.path.exists(p) else {}
 m.update({"seed":id,"breaks_property":prop,"demo_package_dir":demodir,
  "confirmed":{"patch_applies":a,"builds":b,"existing_tests":t,"demo_with_mutation":dm,"demo_on_clean_tree":dc},
- "what_i_ran":["git worktree add; git apply patch.diff; go build ./...; go test -vet=off -count=1 ./... ; copy demo_test.go into %s; go test ./%s (with mutation, then after git checkout -- .)"%(demodir,demodir),"git -C /repo apply patch.diff; ./bin/vcheck run %s --tier %s; git -C /repo checkout -- ."%(prop,tier)]})
+ "what_i_ran":["git worktree add; git apply patch.diff; go build ./...; go test -vet=off -count=1 ./... ; copy demo_test.go into %s; go test ./%s (with mutation, then after git checkout -- .)"%(demodir,demodir),"tools/seedrun.sh: scratch worktree of /repo HEAD + patch.diff; VERIF_REPO=<worktree> ./bin/vcheck run %s --tier %s (round 1 seeds were also run with the patch applied to /repo itself and reverted)"%(prop,tier)]})
 m.setdefault("checks",{})[tier]=det
 json.dump(m,open(p,'w'),indent=1)
 PY
+echo "$ID prop=$PROP apply=$R_APPLY build=$R_BUILD tests=$R_TESTS demo_with_mutation=$R_DEMO_MUT demo_clean=$R_DEMO_CLEAN"
+/verif/tools/seedrun.sh $ID $TIER
